@@ -33,6 +33,7 @@ type RunSpec struct {
 	Entry     string              `json:"entry"`
 	DPOR      bool                `json:"dpor,omitempty"`
 	NoMapPerm bool                `json:"no_map_perm,omitempty"`
+	NoSelectFork bool             `json:"no_select_fork,omitempty"`
 	Covers    []string            `json:"covers,omitempty"`
 	Tiers     map[string]TierSpec `json:"tiers"`
 	Native    string              `json:"native,omitempty"` // replay template used to validate paths natively
@@ -124,6 +125,7 @@ func cmdRun(args []string) int {
 	overlay := fs.String("overlay", "", "/repo/file.go=replacement (mutant)")
 	verbose := fs.Bool("v", false, "print violation models")
 	nomap := fs.Bool("nomap", false, "do not permute map iteration order")
+	nosel := fs.Bool("nosel", false, "a select with several ready cases takes the first instead of forking")
 	fs.Parse(args)
 	rest := fs.Args()
 	if len(rest) < 2 {
@@ -141,7 +143,7 @@ func cmdRun(args []string) int {
 		fmt.Fprintln(os.Stderr, err)
 		return 2
 	}
-	cfg := RunCfg{Name: rest[0], Entry: rest[0], Workers: *workers, Race: *race, Params: map[string]int64{}, NoMapPerm: *nomap}
+	cfg := RunCfg{Name: rest[0], Entry: rest[0], Workers: *workers, Race: *race, Params: map[string]int64{}, NoMapPerm: *nomap, NoSelectFork: *nosel}
 	if *dpor >= 0 {
 		cfg.DPOR, cfg.MaxRev = true, *dpor
 	}
